@@ -227,6 +227,28 @@ def inline_helpers(f, crate, depth=2, _callers=None, _counter=None):
             return None
         return h
 
+    # local closures that are only ever called: `let f = |a, b| ..; f(x, y)` is treated like a helper function
+    closures = {}
+    for n_ in walk(g["body"]):
+        if n_.get("k") == "let" and "init" in n_ and n_["pat"].get("k") == "pbind" and not n_["pat"].get("mut") and peel(n_["init"]).get("k") == "closure":
+            closures[n_["pat"]["id"]] = peel(n_["init"])
+    if closures:
+        uses = {}
+        for n_, ps in walk_parents(g["body"]):
+            if n_.get("k") == "local" and n_["id"] in closures:
+                par = ps[-1] if ps else None
+                called = par is not None and par.get("k") == "callv" and par.get("f") is n_
+                uses.setdefault(n_["id"], []).append(called)
+        closures = {i: c_ for i, c_ in closures.items() if uses.get(i) and all(uses[i])}
+
+    def _bound_ids(x):
+        return {y["id"] for y in walk(x) if y.get("k") == "pbind"}
+
+    def _offset_some(x, ids, off):
+        for y in walk(x):
+            if y.get("k") in ("local", "pbind") and y.get("id") in ids:
+                y["id"] += off
+
     def rewrite(n, d):
         if isinstance(n, list):
             return [rewrite(x, d) for x in n]
@@ -235,6 +257,24 @@ def inline_helpers(f, crate, depth=2, _callers=None, _counter=None):
         for k, v in list(n.items()):
             if k != "mac" and isinstance(v, (dict, list)):
                 n[k] = rewrite(v, d)
+        if n.get("k") == "callv" and peel(n["f"]).get("k") == "local" and peel(n["f"])["id"] in closures and d > 0:
+            cl = closures[peel(n["f"])["id"]]
+            if len(cl["params"]) == len(n["args"]):
+                _counter[0] += 1
+                off = 100000 * _counter[0]
+                body = copy.deepcopy(cl["body"])
+                params = copy.deepcopy(cl["params"])
+                own = set()
+                for p_ in params:
+                    own |= _bound_ids(p_)
+                own |= _bound_ids(body)
+                _offset_some(body, own, off)
+                for p_ in params:
+                    _offset_some(p_, own, off)
+                _mark_returns(body, base + off)
+                stmts = [{"k": "let", "pat": p_, "init": a, "sp": n.get("sp"), "inl_param": True} for p_, a in zip(params, n["args"])]
+                changed[0] = True
+                return {"k": "blockexpr", "b": {"k": "block", "stmts": stmts, "tail": body, "sp": n.get("sp")}, "ty": n.get("ty"), "sp": n.get("sp"), "inlined_from": "closure " + str(peel(n["f"]).get("name")), "inl_id": base + off}
         if n.get("k") in ("call", "mcall") and d > 0:
             h = helper_of(n)
             if h is not None:
